@@ -106,6 +106,7 @@ def cases(tier):
             yield ('batch', first)
             yield ('batch', first, 'FrameGO')
             yield ('batch', first, 'FrameHE')
+            yield ('batch', first, 'with-empty-member')
 
 
 def universe(tier):
@@ -198,6 +199,15 @@ def quilt_ops(total, nother, axis, labels_along, retain):
         ops.append((f'iter_tuple({ax})', 'iter', lambda c, ax=ax: tuple(tuple(t) for t in c.iter_tuple(axis=ax))))
         ops.append((f'iter_window_items(2,{ax})', 'window', lambda c, ax=ax: tuple(c.iter_window_items(size=2, axis=ax))))
         ops.append((f'iter_window_array(2,step2,{ax})', 'window', lambda c, ax=ax: tuple(c.iter_window_array(size=2, step=2, axis=ax))))
+        # the function-application forms: what the function is handed (class and shape of each window) and the labelled result
+        describe = lambda w: type(w).__name__ + repr(getattr(w, 'shape', None))
+        describe_items = lambda k, w: repr(k) + type(w).__name__ + repr(getattr(w, 'shape', None))
+        for meth in ('iter_window', 'iter_window_array'):
+            ops.append((f'{meth}(2,{ax}).apply', 'window', lambda c, ax=ax, meth=meth: getattr(c, meth)(size=2, axis=ax).apply(describe)))
+            ops.append((f'{meth}(2,{ax}).apply_iter', 'window', lambda c, ax=ax, meth=meth: tuple(getattr(c, meth)(size=2, axis=ax).apply_iter(describe))))
+            ops.append((f'{meth}(2,{ax}).apply_iter_items', 'window', lambda c, ax=ax, meth=meth: tuple(getattr(c, meth)(size=2, axis=ax).apply_iter_items(describe))))
+            ops.append((f'{meth}_items(2,{ax}).apply', 'window', lambda c, ax=ax, meth=meth: getattr(c, meth + '_items')(size=2, axis=ax).apply(describe_items)))
+        ops.append((f'iter_window_array(2,{ax}).apply(sum)', 'window', lambda c, ax=ax: c.iter_window_array(size=2, axis=ax).apply(lambda w: repr([[float(x) if isinstance(x, (int, float)) and not isinstance(x, bool) else x for x in r] for r in w.tolist()]))))
         # values forms with a label shift (the shift decides which windows have a valid anchor, also when no label is delivered)
         for ls in (1, -1):
             ops.append((f'iter_window(2,label_shift={ls},{ax})', 'window', lambda c, ax=ax, ls=ls: tuple(c.iter_window(size=2, label_shift=ls, axis=ax))))
@@ -359,7 +369,10 @@ def run_batch(case, ctx):
     first = case[1]
     klass = case[2] if len(case) > 2 else 'Frame'
     frames = batch_frames()
-    if klass != 'Frame':
+    if klass == 'with-empty-member':
+        # a member without rows (as a filter that matched nothing leaves): every operation still applies to it
+        frames = frames[:1] + [frames[1].iloc[:0].rename('y')] + frames[2:]
+    elif klass != 'Frame':
         # grow-only / hashable members: the Batch treats every Frame subclass (and Series subclass result) as a container, not as an opaque element
         frames = [f.to_frame_go() if klass == 'FrameGO' else f.to_frame_he() for f in frames]
     for second in [None] + list(range(len(BATCH_OPS))):
@@ -416,11 +429,23 @@ def run_batch(case, ctx):
                 b = sf.Batch.from_frames(frames)
                 for op in chain:
                     b = apply_op(op, b, True)
-                tf = b.to_frame()
-                if all(isinstance(v, sf.Frame) for v in exp.values()):
-                    ref = sf.Frame.from_concat_items(exp.items(), axis=0)
-                else:
-                    ref = sf.Frame.from_concat(tuple(v.rename(k) for k, v in exp.items()), axis=0)
+                # the reference concatenation first: where the concatenation of those results is itself refused (e.g. a member without rows under
+                # two-level labels), the export is compared only when the Batch does produce a Frame
+                try:
+                    if all(isinstance(v, sf.Frame) for v in exp.values()):
+                        ref = sf.Frame.from_concat_items(exp.items(), axis=0)
+                    else:
+                        ref = sf.Frame.from_concat(tuple(v.rename(k) for k, v in exp.items()), axis=0)
+                except Exception:
+                    ref = None
+                try:
+                    tf = b.to_frame()
+                except Exception:
+                    if ref is None:
+                        continue
+                    raise
+                if ref is None:
+                    continue
                 if coarse(snapany(tf)) != coarse(snapany(ref)):
                     ctx.violation(f'batch|to_frame|{names[-1]}', **info, got=repr(coarse(snapany(tf)))[:400], expected=repr(coarse(snapany(ref)))[:400])
                 # 1-D results side by side (axis 1), with and without explicit labels on the other axis
